@@ -49,6 +49,10 @@ class ReplayDiverged(Exception):
     pass
 
 
+class ReplayDone(BaseException):
+    """concrete replay reached the violation it was looking for"""
+
+
 ENGINE = None  # the engine of the path that is being executed
 
 
@@ -378,6 +382,8 @@ class Engine:
         self.inconclusive = []
         self.model = None
         self.notes = {}          # per-path scratch space for harnesses
+        self.keep = -1
+        self.scopes = 0
 
     # -- variables ---------------------------------------------------------
     def _new(self, name, mk, *cons):
@@ -418,6 +424,8 @@ class Engine:
 
     # -- solver ------------------------------------------------------------
     def _assume(self, c):
+        if self.pos <= self.keep:
+            return  # replaying: the constraint is still in the solver (kept scope)
         self.solver.add(c)
         if self.model is not None:
             try:
@@ -428,6 +436,8 @@ class Engine:
 
     def assume(self, c):
         """Constrain the path (a stated assumption about the environment)."""
+        if self.pos <= self.keep:
+            return
         c = term(c)
         c = z3.simplify(c)
         if z3.is_true(c):
@@ -438,7 +448,7 @@ class Engine:
             raise PathDead()
 
     def _sat(self, *es):
-        """is pc /\ es satisfiable?  returns (bool, model or None)"""
+        """is pc and es satisfiable?  returns (bool, model or None)"""
         st = self.stats
         if self.model is not None:
             try:
@@ -451,12 +461,14 @@ class Engine:
         st.queries += 1
         if es:
             self.solver.push()
+        try:
             for e in es:
                 self.solver.add(e)
-        r = str(self.solver.check())
-        m = self.solver.model() if r == 'sat' else None
-        if es:
-            self.solver.pop()
+            r = str(self.solver.check())
+            m = self.solver.model() if r == 'sat' else None
+        finally:
+            if es:
+                self.solver.pop()
         st.solver_s += _time.perf_counter() - t0
         if r == 'sat':
             st.sat += 1
@@ -493,9 +505,12 @@ class Engine:
                 raise HarnessError('no feasible alternative at a decision (path condition unsat?)')
             chosen = feas[0]
         self.trace.append((kind, feas, chosen, sig))
+        idx = self.pos
         self.pos += 1
         self.stats.decisions += 1
-        if True:
+        if idx >= self.keep:
+            self.solver.push()
+            self.scopes += 1
             self.solver.add(conds[chosen])
             if mdl is not None and mdl.get(chosen) is not None:
                 self.model = mdl[chosen]
@@ -525,8 +540,13 @@ class Engine:
             if k != 'c' or s != sig:
                 raise HarnessError(f'non-deterministic re-execution at decision {self.pos} (concretize)')
             self.trace.append((k, vals, chosen, s))
+            idx = self.pos
             self.pos += 1
-            self._assume(e == chosen)
+            if idx >= self.keep:
+                self.solver.push()
+                self.scopes += 1
+                self.solver.add(e == chosen)
+                self.model = None
             return chosen
         if self.split_depth is not None and self.pos >= self.split_depth:
             raise SplitPoint()
@@ -545,7 +565,10 @@ class Engine:
         self.trace.append(('c', vals, chosen, sig))
         self.pos += 1
         self.stats.decisions += 1
-        self._assume(e == chosen)
+        self.solver.push()
+        self.scopes += 1
+        self.solver.add(e == chosen)
+        self.model = None
         return chosen
 
     def choose(self, n, label='choice'):
@@ -583,36 +606,57 @@ class Engine:
 
     def check(self, cond, rule, msg='', extra=None):
         """Obligation: cond must hold on this path for all values.  Returns True if it
-        does; records a violation (with a model) and assumes cond otherwise."""
+        does; otherwise records a violation (with a model) and goes on with the values for
+        which cond holds, if any.  The outcome is part of the decision trace (one
+        alternative), so a re-executed prefix neither re-evaluates nor re-reports it."""
         if type(cond) is bool:
-            if cond:
-                self.stats.checks_trivial += 1
-                return True
-            c = z3.BoolVal(False)
+            c = z3.BoolVal(cond)
         else:
             c = z3.simplify(term(cond))
         if z3.is_true(c):
             self.stats.checks_trivial += 1
             return True
-        self.stats.checks += 1
-        try:
-            ok, m = self._sat(z3.Not(c))
-        except Unsupported:
-            self.inconclusive.append((rule, msg))
-            return True
-        if ok:
-            self.violations.append(ViolationRecord(rule, msg() if callable(msg) else msg, self.script(m), extra))
-            self._assume(c)
-            ok2, _ = self._sat()
-            if not ok2:
-                raise PathDead()
-            return False
-        self._assume(c)
-        return True
+        sig = c.hash()
+        idx = self.pos
+        if idx < len(self.prefix):
+            k, feas, code, sg = self.prefix[idx]
+            if k != 'k' or sg != sig:
+                raise HarnessError(f'non-deterministic re-execution at decision {idx} (check {rule})')
+        else:
+            if self.split_depth is not None and idx >= self.split_depth:
+                raise SplitPoint()
+            self.stats.checks += 1
+            code = 0
+            try:
+                bad, m = self._sat(z3.Not(c))
+            except Unsupported:
+                self.inconclusive.append((rule, msg() if callable(msg) else msg))
+                bad = False
+                code = 3
+            if bad:
+                self.violations.append(ViolationRecord(rule, msg() if callable(msg) else msg, self.script(m), extra))
+                ok2, _ = self._sat(c)
+                code = 1 if ok2 else 2
+        self.trace.append(('k', [code], code, sig))
+        self.pos += 1
+        if idx >= self.keep:
+            self.solver.push()
+            self.scopes += 1
+            if code in (0, 1):
+                self.solver.add(c)
+                if self.model is not None:
+                    try:
+                        if not z3.is_true(self.model.eval(c, model_completion=True)):
+                            self.model = None
+                    except z3.Z3Exception:
+                        self.model = None
+        return code in (0, 3)
 
     def alarm(self, rule, msg='', extra=None):
         """A monitor written in plain Python reached a violating branch: the current
         path condition is satisfiable, any model of it is a counterexample."""
+        if self.pos <= self.keep:
+            return  # re-executed prefix: reported by the path that first got here
         ok, m = self._sat()
         if not ok:
             raise HarnessError('alarm on an infeasible path')
@@ -627,8 +671,6 @@ class Engine:
     split_depth = None
 
     def _reset_path(self):
-        self.solver.reset()
-        self.solver.set('timeout', self.timeout_ms)
         self.trace = []
         self.pos = 0
         self.vars = {}
@@ -650,6 +692,10 @@ class Engine:
         frozen = len(seed)
         self.prefix = list(seed)
         self.split_depth = split_depth
+        self.solver.reset()
+        self.solver.set('timeout', self.timeout_ms)
+        self.scopes = 0
+        self.keep = -1
         results = []
         prefixes = []
         complete = True
@@ -690,6 +736,13 @@ class Engine:
                 complete = False
                 break
             self.prefix = list(tr)
+            # keep the solver scopes of the unchanged decisions tr[:-1]
+            self.keep = len(tr) - 1
+            if self.scopes > self.keep:
+                self.solver.pop(self.scopes - self.keep)
+                self.scopes = self.keep
+            elif self.scopes < self.keep:
+                raise HarnessError('solver scopes out of sync with the decision trace')
         return {'results': results, 'complete': complete, 'prefixes': prefixes}
 
 
@@ -699,7 +752,8 @@ class Engine:
 class ConcreteEngine:
     mode = 'concrete'
 
-    def __init__(self, script):
+    def __init__(self, script, stop_rule=None):
+        self.stop_rule = stop_rule
         self.vals = dict(script.get('vars', {}))
         self.choice_list = [tuple(c) for c in script.get('choices', [])]
         self.cpos = 0
@@ -766,10 +820,14 @@ class ConcreteEngine:
         if bool(cond):
             return True
         self.violations.append(ViolationRecord(rule, msg() if callable(msg) else msg, None, extra))
+        if rule == self.stop_rule:
+            raise ReplayDone()
         return False
 
     def alarm(self, rule, msg='', extra=None):
         self.violations.append(ViolationRecord(rule, msg, None, extra))
+        if rule == self.stop_rule:
+            raise ReplayDone()
 
     def reachable(self):
         return True
@@ -783,5 +841,7 @@ class ConcreteEngine:
                 return 'cut', c.why
             except PathDead:
                 return 'dead', None
+            except ReplayDone:
+                return 'stopped-at-violation', None
         finally:
             _set_engine(None)
